@@ -785,14 +785,21 @@ def record_run(sc):
             RunBSL = run_bsl_class()
             b = RunBSL(m, nsr, batch_size=bs, likelihood=(partial(robust_lik, adjustment=robust) if robust else lik),
                        seed=sc.get("seed", 1), max_parallel_batches=sc.get("maxpar", 1))
+            perm = bool(sc.get("perm")) and not scripted and p > 1
             if not scripted:
                 b.c20_log = log
-                b.c20_oracle = lambda vec: oracle_logprior(sc, lats, np.asarray(vec, dtype=float).ravel())
+                # (with param_names given in ANOTHER order than the model's, the sampler's vectors are in that order)
+                b.c20_oracle = lambda vec: oracle_logprior(sc, lats, np.asarray(vec, dtype=float).ravel()[::-1] if perm
+                                                           else np.asarray(vec, dtype=float).ravel())
             if scripted:
                 b.random_state = ScriptedRandom(log, lats, sc["props"], sc["us"])
             bound = [bound_row(pp) for pp in sc["ps"]] if tb else None
             sigma = np.eye(p) * float(sc.get("sigma", 1.0))
-            out = b.sample(sc["n"], sigma, params0=start, burn_in=sc.get("burn_in", 0), logit_transform_bound=bound, bar=False)
+            if perm:
+                out = b.sample(sc["n"], sigma, params0=start[::-1], param_names=["t%d" % (k + 1) for k in range(p)][::-1],
+                               burn_in=sc.get("burn_in", 0), logit_transform_bound=(bound[::-1] if bound else None), bar=False)
+            else:
+                out = b.sample(sc["n"], sigma, params0=start, burn_in=sc.get("burn_in", 0), logit_transform_bound=bound, bar=False)
         pn = ["t%d" % (k + 1) for k in range(p)]
         full = np.column_stack([np.asarray(out.samples_all[nm], dtype=float) for nm in pn])
         chain = [[lats[k].index(full[r, k]) for k in range(p)] for r in range(full.shape[0])]
@@ -841,7 +848,10 @@ def record_run(sc):
     if scripted:
         for k in range(p):
             lat_out.append([dict(E=q(e)) for e in lats[k].E])
-    return dict(mode=sc["mode"], robust=bool(robust), n=sc["n"], nsr=nsr, bs=bs, p=p, tb=tb, burn=sc.get("burn_in", 0),
+    # is the start the scenario hands over inside the prior support?  (seeded runs: known from the scenario; scripted runs: the
+    # harness cannot say more than the logged prior evaluation - a refusal there stays a harness matter)
+    start_ok = (not scripted) and all(sc["support"][k][0] <= start[k] <= sc["support"][k][1] for k in range(p))
+    return dict(mode=sc["mode"], robust=bool(robust), n=sc["n"], nsr=nsr, bs=bs, p=p, tb=tb, burn=sc.get("burn_in", 0), start_ok=start_ok,
                 ps=[dict(ty=pp[0], a=pp[1], b=pp[2]) for pp in sc["ps"]], lat=lat_out, chain=chain, events=events)
 
 
@@ -930,6 +940,9 @@ def run_scenarios(ctx):
                         support=[[0, 4]] * p, start=[rnd.choice([0.5, 2.0, 3.5]) for _ in range(p)], seed=(0 if rnd.random() < 0.1 else rnd.randint(0, 10 ** 6)),
                         sigma=rnd.choice([1.0, 4.0, 9.0]), obs=rnd.choice([1, 2, 3]) * p, noise_seed=rnd.randint(0, 10 ** 6),
                         burn_in=rnd.choice([0, 0, 2]), p_ready=rnd.choice([0.2, 0.5, 0.9]), p_run=rnd.choice([0.0, 0.5, 1.0])))
+        if p == 2 and not tb and j % 2 == 0:
+            # parameter names requested in another order than the model's, priors that differ between the parameters
+            out[-1].update(perm=True, support=[[0, 4], [1, 3]], start=[rnd.choice([0.5, 3.5]), rnd.choice([1.5, 2.5])])
     # (4) seeded robust runs: syn_likelihood_misspec ('mean' / 'variance') with its gamma slice sampler, narrow and
     #     wide uniform priors (log density != 0), proposals that leave the support
     n_rob = 24 if ctx.quick else 300
@@ -948,6 +961,8 @@ def run_scenarios(ctx):
                         support=[[lo, hi]] * p, start=start, seed=(0 if rnd.random() < 0.1 else rnd.randint(0, 10 ** 6)), sigma=rnd.choice(sig),
                         obs1=sum(start), obs=0.5 * sum(start), noise_seed=rnd.randint(0, 10 ** 6), burn_in=rnd.choice([0, 0, 2]),
                         p_ready=rnd.choice([0.2, 0.5, 0.9]), p_run=rnd.choice([0.0, 0.5, 1.0])))
+        if p == 2 and not tb and (lo, hi) == (0, 4):
+            out[-1].update(perm=True, support=[[0, 4], [1, 3]], start=[rnd.choice([0.5, 3.5]), rnd.choice([1.5, 2.5])])
     return out, n_ex
 
 
